@@ -16,7 +16,7 @@ THEOREMS = ["Kdf.Props.C11.pread_flat_rearranged", "Kdf.Props.C11.get_chunk_rear
             "Kdf.Props.C11.scan_accepts", "Kdf.Props.C11.scan_terminates",
             "Kdf.Props.C11.hole_reads_zero", "Kdf.Props.C11.last_record_wins", "Kdf.Props.C11.other_record_keeps",
             "Kdf.Props.C11.split_order_irrelevant", "Kdf.Props.C11.split_selects_window",
-            "Kdf.Props.C11.scanE_ok_scan", "Kdf.Props.C11.scanE_eq_scan_of_no_eof", "Kdf.Props.C11.scanE_eof_refused"]
+            "Kdf.Props.C11.split_uncovered_excluded", "Kdf.Props.C11.zero_excluded_only_excluded", "Kdf.Props.C11.scanE_ok_scan", "Kdf.Props.C11.scanE_eq_scan_of_no_eof", "Kdf.Props.C11.scanE_eof_refused"]
 PS = 4096
 WRAP = "-Wl,--wrap=_kdumpfile_priv_fcache_pread,--wrap=_kdumpfile_priv_flatmap_pread_flat"
 VOLATILE = ("file.set.", "file.fd", "file.description", "file.mmap_cache.", "file.read_cache.", "cache.hits", "cache.misses")
@@ -187,6 +187,15 @@ class DD:
         cuts |= {PS, PS + 1, 2 * PS, 2 * PS + 1, 3 * PS + 1}
         return bytes(img), cuts, info
 
+    def restrict(self, cover, rng):
+        """keep only the stored frames inside `cover` (the union of the windows of a split set that does not cover the frame space)"""
+        self.file &= cover
+        if not self.file:
+            self.file = {min(cover)}
+            self.mem |= self.file
+        self.methods = {p: self.methods.get(p, "raw") for p in self.file}
+        self.zero &= self.file
+
     def describe(self):
         return dict(kind=self.kind, top=self.top, file=sorted(self.file), mem=sorted(self.mem), version=self.version,
                     methods={str(k): v for k, v in sorted(self.methods.items())}, zero=sorted(self.zero))
@@ -257,6 +266,13 @@ def pack_commands(rng, L):
         for s in L.segs[:3]:
             if s["filepages"]:
                 cmds.append("probe 2 %d %d" % ((s["pfn"] * PS + s["voff"]) % (1 << 64), PS))
+    # excluded frames delivered as zeroes (file.zero_excluded): every frame again, reads across stored/excluded frames
+    cmds.append("setnum file.zero_excluded 1")
+    for p in sorted(rng.sample(range(top), 8)) + [top - 4, top - 3]:
+        cmds.append("probe 1 %d %d" % (p * PS, PS))
+    for _ in range(3):
+        a = rng.randrange(top * PS)
+        cmds.append("read 1 %d %d" % (a, rng.choice([1, PS, PS + 1, 3 * PS])))
     cmds.append("tree")
     return cmds
 
@@ -274,6 +290,17 @@ def gen_pack(R):
     layouts = []
     for li in range(nlay):
         L = (DD if li % 3 != 2 else ELF)(rng, li)
+        gapwin = None
+        if L.split_ok and rng.random() < 0.4:
+            # a split set whose windows do not cover the frame space: the last window ends before max_mapnr, the first one
+            # starts behind frame 0, windows are not adjacent (its plain twin stores no frame outside the windows)
+            nsplit = rng.choice([2, 2, 3, 4])
+            hi = rng.choice([L.top, L.top, max(2 * nsplit, L.top // 2)])
+            pts = sorted(rng.sample(range(0, hi + 1), 2 * nsplit))
+            if rng.random() < 0.5:
+                pts[0] = 0
+            gapwin = [(pts[2 * i], pts[2 * i + 1]) for i in range(nsplit)]
+            L.restrict({p for a, b in gapwin for p in range(a, b)}, rng)
         twin = R.path("c11-%d-twin.dump" % li)
         img, cuts, info = L.write(twin)
         variants = []
@@ -286,6 +313,8 @@ def gen_pack(R):
                 nsplit = rng.choice([2, 3, 4])
                 cs = sorted(rng.sample(range(1, L.top), nsplit - 1))
                 windows = list(zip([0] + cs, cs + [L.top]))
+                if gapwin:
+                    windows, nsplit = list(gapwin), len(gapwin)
                 paths, specs, members = [], [], []
                 for k, (a, b) in enumerate(windows):
                     p = R.path("c11-%d-s%d-%d.dump" % (li, v, k))
@@ -344,6 +373,11 @@ def run(R):
             lines.append("sopen %d %s" % (len(v["paths"]), " ".join(v["paths"]))); meta.append(("sopen", li, vi))
             for p in range(L.top + 3):
                 lines.append("tprobe %d" % p); meta.append(("tprobe", li, vi, p))
+            # (a fresh context: the frames read above sit in its page cache)
+            lines.append("sopen %d %s" % (len(v["paths"]), " ".join(v["paths"]))); meta.append(("sopen", li, vi))
+            lines.append("zx 1"); meta.append(None)
+            for p in range(L.top + 3):
+                lines.append("zprobe %d" % p); meta.append(("zprobe", li, vi, p))
     text = "\n".join(lines) + "\n"
     exe = R.build_harness("s_flat", ["s_flat.c"], lib=lib, cflags=cflags, ldflags=[WRAP])
     rc, out, err = R.run_harness(exe, stdin_text=text)
@@ -389,6 +423,22 @@ def run(R):
             if o != "sopen ok":
                 v = layouts[m[1]]["variants"][m[2]]
                 fails.append(("split set %s in order %s does not open: %s" % (v["windows"], v["order"], o), replay_pack(layouts[m[1]], m[2], None, None, None)))
+                break
+        elif m[0] == "zprobe":
+            lay = layouts[m[1]]; v = lay["variants"][m[2]]; p = m[3]
+            want = "zprobe zero" if p < lay["L"].top else "zprobe nodata"
+            covered = False
+            for k, mem in enumerate(v["members"]):
+                if mem["window"][0] <= p < mem["window"][1]:
+                    covered = True
+                    if p in lay["L"].file:
+                        want = "zprobe pd=%d:%d" % (k, mem["pdoff"] + 24 * mem["pages"].index(p))
+            kk = "zprobe/" + ("hit" if "pd=" in want else "oob" if "nodata" in want else "excluded" if covered else "outside-all-windows")
+            kinds[kk] = kinds.get(kk, 0) + 1
+            if o != want:
+                fails.append(("frame %d of a split set (max_mapnr %d, windows %s passed in order %s) read with file.zero_excluded=1: the library answers '%s'; "
+                              "the plain dump gives '%s' (descriptor of a stored frame, a page of zeroes for a frame without one, no data at or above max_mapnr)"
+                              % (p, lay["L"].top, v["windows"], v["order"], o, want), replay_pack(lay, m[2], "zx 1; zprobe %d" % p, want, o, err)))
                 break
         elif m[0] == "tprobe":
             lay = layouts[m[1]]; v = lay["variants"][m[2]]; p = m[3]
@@ -495,7 +545,8 @@ def run(R):
                evaluations=len(impl) + pack_eval + len(mimpl), distinct_nontrivial=nontriv + len(set(ml)), split_map_cases=len(mimpl),
                rule="flat: explicit record streams (0..70 records, adjacent/overlapping/nested/identical rewrites, holes, offsets up to 2^62, "
                     "invalid headers), pread and get_chunk at every record boundary -2..+1 with lengths reaching the next three boundaries +-1; "
-                    "split: descriptor lookup of every frame for 2-4 windows in shuffled order with plain/flattened members; pack: plain twin vs "
+                    "split: descriptor lookup of every frame for 2-4 windows in shuffled order with plain/flattened members, windows that partition the frame "
+                    "space and windows that leave frames outside (before the first, between, behind the last window), each frame also read with file.zero_excluded=1; pack: plain twin vs "
                     "flattened variants (cuts at object start/+1/end, fwd/rev/shuffled, stale rewrites, zero pieces as holes) and split sets through "
                     "the public API (attribute tree, all pages, cross-page reads, both page maps); non-trivial = distinct (stream, pos, len>0) + variants",
                traces_validated_against_impl=len(impl_cmp), correspondence_first_diff=mism, case_kinds=kinds, pack_variants=pack_kinds,
@@ -503,6 +554,7 @@ def run(R):
                samples=[dict(records=[(p, len(d)) for p, d in c["recs"]][:6], status=c["status"]) for c in cases[:2]])
     return "proof", cov, ["record streams stay inside off_t (flatpos + size < 2^63)", "split windows have distinct end frames (a partition of the frame space)",
                           "every split member carries the same header, notes and bitmaps (as makedumpfile writes them)",
+                          "the plain twin of a split set that leaves frames outside its windows stores no such frame",
                           "allocation failure and I/O errors are outside this property", "SADUMP disk sets are not covered (no writer)"]
 
 
